@@ -25,7 +25,8 @@ let atoms v = List.sort compare (String.split_on_char '|' v)
 let canon (es : (string * string) list) = List.map (fun (k, v) -> (k, atoms v)) es
 
 type out = { adds : bool list; result : (string * string) list option; late_add : bool; late_write : bool;
-             nspills : int; templates : string list; calls : int; spills_after_add : int list }
+             nspills : int; templates : string list; calls : int; spills_after_add : int list;
+             after_seek : (string * (string * string) list) option (* seek target, entries delivered after the seek *) }
 
 let run_impl ~(ops : (string * string) list) ~maxmem ~pool ~use_write ~fail_at ~tmp : child_end =
   in_child (fun () ->
@@ -36,6 +37,7 @@ let run_impl ~(ops : (string * string) list) ~maxmem ~pool ~use_write ~fail_at ~
     let s = c_sorter_init maxmem tmp mc p in
     let spills = ref [] in
     let adds = List.map (fun (k, v) -> let r = c_sorter_add s k v in spills := c_mkstemp_count () :: !spills; r) ops in
+    let after_seek = ref None in
     let result, late_add, late_write =
       if use_write then begin
         let path = Filename.concat tmp (Printf.sprintf "so_out_%d.mtbl" (Unix.getpid ())) in
@@ -69,6 +71,19 @@ let run_impl ~(ops : (string * string) list) ~maxmem ~pool ~use_write ~fail_at ~
           let continue = ref true in
           while !continue do match Rd.c_iter_next it with Some e -> out := e :: !out | None -> continue := false done;
           let la = c_sorter_add s "late" "x" in
+          (* mtbl_iter_seek on the sorter's iterator (after exhaustion): back to a key in the middle, drain again *)
+          (match ops with
+           | [] -> ()
+           | _ ->
+             let keys = List.sort_uniq compare (List.map fst ops) in
+             let target = List.nth keys (List.length keys / 2) in
+             let target = if List.length ops mod 3 = 0 then target ^ "\000" else target in
+             if Rd.c_iter_seek it target then begin
+               let out2 = ref [] in
+               let continue = ref true in
+               while !continue do match Rd.c_iter_next it with Some e -> out2 := e :: !out2 | None -> continue := false done;
+               after_seek := Some (target, List.rev !out2)
+             end else after_seek := Some (target ^ " (seek failed)", []));
           Rd.c_iter_destroy it;
           (Some (List.rev !out), la, false)
         end
@@ -78,7 +93,7 @@ let run_impl ~(ops : (string * string) list) ~maxmem ~pool ~use_write ~fail_at ~
     c_sorter_destroy s;
     if pool <> 0 then Wr.c_pool_destroy p;
     Mg.c_merge_clos_free mc;
-    "DONE" ^ Marshal.to_string { adds; result; late_add; late_write; nspills = n; templates; calls = 0; spills_after_add = List.rev !spills } [])
+    "DONE" ^ Marshal.to_string { adds; result; late_add; late_write; nspills = n; templates; calls = 0; spills_after_add = List.rev !spills; after_seek = !after_seek } [])
 
 let hangs = ref 0
 let check acc ~klass ~(ops : (string * string) list) ~maxmem ~pool ~use_write ~fail_at =
@@ -141,6 +156,14 @@ let check acc ~klass ~(ops : (string * string) list) ~maxmem ~pool ~use_write ~f
            | `Out mout -> if canon mout <> canon out then fail acc ~kind:"model_mismatch" ~what:"[C06,C13] sorter output" (casej ())
            | _ -> fail acc ~kind:"model_mismatch" ~what:"[C06] model sorter does not produce an iterator" (casej ()))
         | None -> fail acc ~kind:"spec_violation" ~what:"[C06] sorter produced no output (iterator NULL / write failed)" (casej ()));
+       (match o.after_seek with
+        | Some (target, out2) ->
+          bump acc "seek_on_sorter_iterator";
+          let expect2 = List.filter (fun (k, _) -> compare k target >= 0) expect in
+          if canon out2 <> expect2 then
+            fail acc ~kind:"spec_violation" ~what:"[C06,C05] after mtbl_iter_seek on the sorter's iterator the entries delivered are not exactly those with key >= target, in order"
+              (JO [ "case", casej (); "target", jbytes target; "got", entries_json out2 ])
+        | None -> ());
        if o.late_add then fail acc ~kind:"spec_violation" ~what:"[C06] mtbl_sorter_add accepted after iteration had begun" (casej ());
        if o.late_write then fail acc ~kind:"spec_violation" ~what:"[C06] mtbl_sorter_write accepted after iteration had begun" (casej ());
        (* spill bound (specification): with no pool a spill is synchronous; after every add the entries buffered
